@@ -12,16 +12,55 @@ static void list_units(const std::string& tier)
         for (const char* sh : {"S3","S4"}) printf("shape=%s,rel=%s,set=%s,len=2\n", sh, rr, sr);
         printf("shape=S6,rel=%s,set=%s,len=%d\n", rr, sr, th?2:1);
         if (th) { printf("shape=S3,rel=%s,set=%s,len=3\n", rr, sr); printf("shape=S7,rel=%s,set=%s,len=1\n", rr, sr); }
+        // alphabet t2: every single transition on one or two variables, ordered pairs of events, EVERY initial set (the set
+        // forest may skip levels that an event is rooted at)
+        { int n = th?16:8; for (int i=0;i<n;i++) printf("shape=S6,rel=%s,set=%s,alpha=t2,len=2,inits=%s,part=%d/%d\n", rr, sr, th?"all":"cubes", i, n); }
+        if (th) for (int i=0;i<8;i++) printf("shape=S7,rel=%s,set=%s,alpha=t2,len=2,inits=cubes,part=%d/8\n", rr, sr, i);
+        // alphabet pid: partial identities (self-loop events guarded on a subset of the variables), unordered sets of up to 4
+        { int n = th?8:4; for (int i=0;i<n;i++) printf("shape=S6,rel=%s,set=%s,alpha=pid,len=%d,part=%d/%d\n", rr, sr, 4, i, n); }
+        if (th) for (int i=0;i<8;i++) printf("shape=S7,rel=%s,set=%s,alpha=pid,len=3,part=%d/8\n", rr, sr, i);
+        // alphabet u2: events that are unions of two 2-variable transitions, ordered triples thinned deterministically
+        { int n = th?16:4; for (int i=0;i<n;i++) printf("shape=S6,rel=%s,set=%s,alpha=u2,len=3,part=%d/%d\n", rr, sr, i, n); }
     }
 }
 
 // event catalogue: local relation on a subset J of variables (|J|<=2) x identity elsewhere
 struct Event { Table t; std::string name; };
-static std::vector<Event> catalogue(const Shape& s)
+static std::vector<Event> catalogue(const Shape& s, const std::string& alpha)
 {
     std::vector<Event> ev;
     long RP = s.relPoints();
     int x[16], xp[16];
+    if (alpha=="pid") {
+        // g[v] in {-1 (any), 0..b-1}: the relation { x -> x : x[v]==g[v] where g[v]>=0 }
+        std::vector<int> g(s.K()+1,-1);
+        for (;;) {
+            int v=1; for (; v<=s.K(); v++) { if (++g[v] < s.b[v-1]) break; g[v]=-1; }
+            if (v>s.K()) break;
+            Event e; e.t.assign(RP,0.0); e.name="id";
+            for (int w=1; w<=s.K(); w++) if (g[w]>=0) { char nm[16]; snprintf(nm,sizeof nm,"[x%d=%d]",w,g[w]); e.name+=nm; }
+            for (long p=0;p<RP;p++) { decode_rel(s,p,x,xp); bool ok=true; for (int w=1; w<=s.K(); w++) { if (x[w]!=xp[w]) ok=false; if (g[w]>=0 && x[w]!=g[w]) ok=false; } e.t[p]=ok; }
+            ev.push_back(e);
+        }
+        return ev;
+    }
+    if (alpha=="u2") {
+        // unions of two single transitions on the same ordered pair of variables (v above w or below), identity elsewhere
+        for (int v=1; v<=s.K(); v++) for (int w=1; w<=s.K(); w++) if (v!=w) {
+            int bv=s.b[v-1], bw=s.b[w-1]; int nt = bv*bv*bw*bw;
+            if (v>w) continue;
+            for (int t1=0; t1<nt; t1++) for (int t2=t1+1; t2<nt; t2++) {
+                if ((t1*31+t2*17+v*5+w) % 7) continue;     // deterministic thinning
+                Event e; e.t.assign(RP,0.0); char nm[96]; int q[2]={t1,t2}; std::string name;
+                for (int k2=0;k2<2;k2++) { int t=q[k2]; int a=t%bv; t/=bv; int c=t%bv; t/=bv; int b2=t%bw; t/=bw; int d2=t;
+                    snprintf(nm,sizeof nm,"%sx%dx%d:%d%d>%d%d",k2?"+":"",v,w,a,b2,c,d2); name+=nm;
+                    for (long p=0;p<RP;p++) { decode_rel(s,p,x,xp); bool ok = x[v]==a && xp[v]==c && x[w]==b2 && xp[w]==d2; for (int u=1;u<=s.K();u++) if (u!=v && u!=w && x[u]!=xp[u]) ok=false; if (ok) e.t[p]=1; } }
+                e.name=name; ev.push_back(e);
+            }
+        }
+        return ev;
+    }
+    const bool thin2 = alpha!="t2";
     // |J| = 1: every boolean relation on variable v (2^(b*b) of them; b=2: 16, b=3: 512 -> thin to the 1-point family + a few)
     for (int v=1; v<=s.K(); v++) {
         int b=s.b[v-1]; unsigned long n = 1UL<<(b*b);
@@ -38,7 +77,7 @@ static std::vector<Event> catalogue(const Shape& s)
     for (int v=1; v<=s.K(); v++) for (int w=v+1; w<=s.K(); w++) {
         int bv=s.b[v-1], bw=s.b[w-1];
         for (int a=0;a<bv;a++) for (int c=0;c<bv;c++) for (int b2=0;b2<bw;b2++) for (int d2=0; d2<bw; d2++) {
-            if ((a*7+c*3+b2*5+d2) % 3) continue;       // deterministic thinning
+            if (thin2 && (a*7+c*3+b2*5+d2) % 3) continue;       // deterministic thinning
             Event e; e.t.assign(RP,0.0); char nm[64]; snprintf(nm,sizeof nm,"x%dx%d:%d%d>%d%d",v,w,a,b2,c,d2); e.name=nm;
             for (long p=0;p<RP;p++) { decode_rel(s,p,x,xp); bool ok = x[v]==a && xp[v]==c && x[w]==b2 && xp[w]==d2; for (int u=1;u<=s.K();u++) if (u!=v && u!=w && x[u]!=xp[u]) ok=false; e.t[p]=ok; }
             ev.push_back(e);
@@ -59,18 +98,41 @@ static void run_unit(const std::map<std::string,std::string>& spec)
     int len = (int)spec_int(spec,"len",2);
     Kind rk; rk.rel=true; rk.range='b'; rk.lab='m'; rk.rr=spec_get(spec,"rel")[0];
     Kind sk; sk.rel=false; sk.range='b'; sk.lab='m'; sk.rr=spec_get(spec,"set")[0];
-    std::vector<Event> cat = catalogue(s);
+    std::string alpha = spec_get(spec,"alpha","std"), initsel = spec_get(spec,"inits","std");
+    int part=0, nparts=1; { std::string ps = spec_get(spec,"part","0/1"); sscanf(ps.c_str(),"%d/%d",&part,&nparts); }
+    std::vector<Event> cat = catalogue(s, alpha);
     ctx.counters["events"]=(long)cat.size();
     long N = s.setPoints(); unsigned long US = 1UL<<N;
     std::vector<unsigned long> inits;
     if (US<=16) for (unsigned long i=0;i<US;i++) inits.push_back(i);
     else { inits = {0,1,US-1,(US-1)/3,US>>1}; for (long p=0;p<N && p<6;p++) inits.push_back(1UL<<p); }
+    if (initsel=="all" && US<=256) { inits.clear(); for (unsigned long i=0;i<US;i++) inits.push_back(i); }
+    if (initsel=="cubes") {
+        // every cube: each variable fixed to a value or free (the sets whose fully-reduced diagram skips levels), plus two non-cubes
+        inits.clear(); std::vector<int> g(s.K()+1,-1); int y[16];
+        for (;;) { unsigned long m=0; for (long p=0;p<N;p++) { decode_set(s,p,y); bool ok=true; for (int w=1;w<=s.K();w++) if (g[w]>=0 && y[w]!=g[w]) ok=false; if (ok) m|=1UL<<p; } inits.push_back(m);
+            int v=1; for (; v<=s.K(); v++) { if (++g[v] < s.b[v-1]) break; g[v]=-1; } if (v>s.K()) break; }
+        inits.push_back(0); inits.push_back((US-1)/3 ^ 1);
+    }
+    if (alpha=="pid") inits = {1,(US-1)/3,US-1,US>>1};
     int x[16], xp[16];
     // event lists of length <= len (ordered, repetition allowed for len 2)
     std::vector<std::vector<int>> lists;
+    const int C = (int)cat.size();
+    if (alpha=="pid") {
+        // unordered sets of 1..len events
+        for (int a=0;a<C;a++) { lists.push_back({a});
+            if (len>=2) for (int b=a+1;b<C;b++) { lists.push_back({a,b});
+                if (len>=3) for (int c=b+1;c<C;c++) { lists.push_back({a,b,c});
+                    if (len>=4) for (int e=c+1;e<C;e++) lists.push_back({a,b,c,e}); } } }
+    } else if (alpha=="u2") {
+        for (int a=0;a<C;a++) for (int b=0;b<C;b++) for (int c=0;c<C;c++) if ((a*13+b*7+c*3)%97==0 && a!=b && b!=c) lists.push_back({a,b,c});
+    } else {
     for (int a=0;a<(int)cat.size();a++) lists.push_back({a});
     if (len>=2) for (int a=0;a<(int)cat.size();a++) for (int b=0;b<(int)cat.size();b++) lists.push_back({a,b});
     if (len>=3) { std::vector<int> one; for (int a=0;a<(int)cat.size();a++) if (cat[a].name.find('x',1)==std::string::npos) one.push_back(a); for (int a : one) for (int b : one) for (int c : one) if ((a+b*3+c*5)%4==0) lists.push_back({a,b,c}); }
+    }
+    if (nparts>1) { std::vector<std::vector<int>> mine; for (size_t i=0;i<lists.size();i++) if ((int)(i%nparts)==part) mine.push_back(lists[i]); lists.swap(mine); }
     ctx.counters["event_lists"]=(long)lists.size();
 
     for (auto& L : lists) {
